@@ -414,5 +414,29 @@ def bounded(ctx):
             probs = [{"exception": repr(e)[:300]}]
         if probs and len(tf) < 3:
             tf.append({"input": {"crystal": r3._c13_desc, "call": f"choose_trigonal_lattice('{tgt}')"}, "observed": probs[:3], "clause": "trigonal switch on r3c_example.cif", "key": "trigonal"})
+    # ---- trigonal switch with atoms on special positions that lie on faces / edges / corners of the cell (images coincide across the periodic boundary)
+    sf, se, sd = [], 0, set()
+    from chmpy.crystal import Crystal, UnitCell, SpaceGroup, AsymmetricUnit
+    from chmpy import Element
+    sites_H = ([0.5, 0.0, 0.0], [0.0, 0.0, 0.0], [0.0, 0.0, 0.5], [0.5, 0.0, 0.5], [1 / 3, 2 / 3, 1 / 6], [0.5, 0.5, 0.0])
+    for number in R_GROUPS:
+        for rep in range(4 if thorough else 2):
+            a_, c_ = float(np.round(rng.uniform(5, 15), 3)), float(np.round(rng.uniform(5, 20), 3))
+            cell = UnitCell.from_lengths_and_angles([a_, a_, c_], [np.pi / 2, np.pi / 2, 2 * np.pi / 3])
+            for site in sites_H:
+                cr = Crystal(cell, SpaceGroup(number, choice="H"), AsymmetricUnit([Element["Xe"], Element["O"]], np.array([site, [0.1231, 0.2717, 0.0911]])))
+                cr._c13_desc = {"space_group": f"{number}:H", "a": a_, "c": c_, "sites": [site, [0.1231, 0.2717, 0.0911]], "elements": ["Xe", "O"]}
+                se += 1
+                sd.add((number, rep, tuple(site)))
+                try:
+                    probs = check_trigonal(cr, "R")
+                except Exception as e:  # noqa
+                    probs = [{"exception": repr(e)[:300]}]
+                if probs and len(sf) < 3:
+                    sf.append({"input": {"crystal": cr._c13_desc, "call": "choose_trigonal_lattice('R')"}, "observed": probs[:3], "key": "trigonal_special",
+                               "clause": "trigonal switch with an atom on a special position on a face, edge or corner of the cell: counts scale by 3, expanded cells coincide atom by atom "
+                                         "(images that coincide across the periodic boundary are one atom)"})
+    ctx.add_bounded("crystal.Crystal.choose_trigonal_lattice/bounded/special_positions", "groups 146 ... 167 in the hexagonal setting, seeded a and c (3 decimals), one Xe at (1/2,0,0), (0,0,0), (0,0,1/2), "
+                    "(1/2,0,1/2), (1/3,2/3,1/6) or (1/2,1/2,0) plus one O at a general position; switched to rhombohedral axes", se, len(sd), sf, rule="distinct (group, cell, site)")
     ctx.add_bounded("crystal.Crystal.choose_trigonal_lattice/bounded/seven_groups", f"groups 146, 148, 155, 160, 161, 166, 167 x (H->R, R->H) x {reps_t} seeded (a, c / a, alpha, molecules at general "
                     "positions) + r3c_example.cif; expanded unit cells compared atom by atom", te, len(td), tf, rule="distinct (group, source setting, repetition)")
